@@ -363,8 +363,29 @@ func main() {
 			fmt.Printf("REPLAY-ERROR: %v\n", err)
 			fatal("native replay failed")
 		}
+		if *prop == "C11" {
+			// the race detector reports one location once per process: a
+			// confirmed race confirms every finding on the same location set
+			racedTags := map[string]bool{}
+			for _, j := range jobs {
+				if j.outcome == "race" {
+					racedTags[j.viol.Tag] = true
+				}
+			}
+			for _, j := range jobs {
+				if j.outcome == "ok" && racedTags[j.viol.Tag] {
+					j.outcome = "race"
+					j.detail = "same shared location as a race confirmed in this replay run"
+				}
+			}
+		}
 		for _, j := range jobs {
 			if j.viol.Kind == "reach" {
+				if j.outcome == "race" && *prop == "C11" {
+					// completed engine paths still contain the recorded (known)
+					// shared writes; natively those show up as races
+					j.outcome = "ok"
+				}
 				if j.outcome == "ok" && !sameObs(j.wantObs, j.gotObs) {
 					j.outcome = "obs-mismatch"
 					j.detail = fmt.Sprintf("engine=%q native=%q", j.wantObs, j.gotObs)
